@@ -55,19 +55,27 @@ DefKind(w)     == [x \in 1..Len(w.defs) |-> IF "kind" \in DOMAIN w.defs[x] THEN 
 NamedNames(w)  == [x \in 1..Len(w.named) |-> w.named[x].name]
 Everything(w)  == G!AllOps(w) \o G!NamedOps(w) \o <<G!SiteOps(w.sites)>>
 
-ParseBad(r) == LET row == Parse[r] w == row.want o == row.obs IN
-    Chk(row.src = "graph" => w = G!WantOf(row.pat), "parse", "want-transport", r)
-  + Chk(\A x \in 1..Len(Everything(o)) : G!OpsIdentity(Everything(o)[x]), "parse", "identity", r)
+\* the structural laws on an observation o against what is required, w; sfx names the stage
+ObsBad(o, w, r, sfx) ==
+    Chk(\A x \in 1..Len(Everything(o)) : G!OpsIdentity(Everything(o)[x]), "parse", "identity" \o sfx, r)
   + Chk([x \in 1..Len(Everything(o)) |-> G!OpsIds(Everything(o)[x])]
-        = [x \in 1..Len(Everything(w)) |-> G!OpsIds(Everything(w)[x])], "parse", "ref-target", r)
+        = [x \in 1..Len(Everything(w)) |-> G!OpsIds(Everything(w)[x])], "parse", "ref-target" \o sfx, r)
   + Chk([x \in 1..Len(Everything(o)) |-> G!OpsKinds(Everything(o)[x])]
-        = [x \in 1..Len(Everything(w)) |-> G!OpsKinds(Everything(w)[x])], "parse", "placement", r)
-  + Chk(DefIds(o) = DefIds(w), "parse", "def-order", r)
-  + Chk(DefDistinct(o) = DefDistinct(w), "parse", "distinct", r)
-  + Chk(DefKind(o) = DefKind(w), "parse", "kind", r)
+        = [x \in 1..Len(Everything(w)) |-> G!OpsKinds(Everything(w)[x])], "parse", "placement" \o sfx, r)
+  + Chk(DefIds(o) = DefIds(w), "parse", "def-order" \o sfx, r)
+  + Chk(DefDistinct(o) = DefDistinct(w), "parse", "distinct" \o sfx, r)
+  + Chk(DefKind(o) = DefKind(w), "parse", "kind" \o sfx, r)
   + Chk(NamedNames(o) = NamedNames(w)
         /\ [x \in 1..Len(o.named) |-> G!OpsIds(o.named[x].nodes)]
-         = [x \in 1..Len(w.named) |-> G!OpsIds(w.named[x].nodes)], "parse", "named-merge", r)
+         = [x \in 1..Len(w.named) |-> G!OpsIds(w.named[x].nodes)], "parse", "named-merge" \o sfx, r)
+
+\* obs: the parsed input; obs2: the module obtained by parsing what Module.String printed.
+\* A reference that the printer writes inline instead of as !N (or the other way round)
+\* shows in obs2 as a placement / identity difference at exactly that position.
+ParseBad(r) == LET row == Parse[r] w == row.want IN
+    Chk(row.src = "graph" => w = G!WantOf(row.pat), "parse", "want-transport", r)
+  + ObsBad(row.obs, w, r, "")
+  + ObsBad(row.obs2, w, r, "-after-reprint")
   + Chk(row.printed.ids = DefIds(w), "parse", "printed-ids", r)
   + Chk(row.printed.tokens = [x \in 1..Len(w.defs) |-> <<w.defs[x].id>> \o G!FlatRefs(w.defs[x].ops)],
         "parse", "printed-refs", r)
